@@ -39,8 +39,8 @@ pub struct Plan {
 /// (search jobs, sweep base files, jumbo jobs)
 fn sizes(tier: &str, profile: &str) -> (u64, u64, u64) {
     match (tier, profile) {
-        ("quick", "checked") => (200_000, 10, 12),
-        ("quick", _) => (60_000, 4, 4),
+        ("quick", "checked") => (200_000, 10, 24),
+        ("quick", _) => (60_000, 4, 8),
         ("thorough", "checked") => (12_000_000, 600, 400),
         ("thorough", _) => (4_000_000, 200, 100),
         _ => (2_000, 1, 1),
